@@ -787,7 +787,7 @@ func (fc *FnCtx) havocLoop(st *State, ls *LoopSpec, nodes ...ast.Node) *State {
 	// cs(): at an arbitrary iteration the last critical section may have begun inside an earlier iteration (Cond.Wait
 	// re-acquires the lock, Lock inside the body). The snapshot cs() reads must then be arbitrary too - related to the
 	// loop-head state only by what the invariant says (`x == cs(x)`) -, not the snapshot taken before the loop.
-	if st.csSnap != nil && resetsCS(nodes...) {
+	if st.csSnap != nil && (resetsCS(nodes...) || fc.calleeResetsCS(nodes...)) {
 		snap := st.csSnap.clone()
 		for k, v := range st.heap { // everything the loop or the code since the snapshot may have changed
 			if snap.heap[k] != v || h.heap[k] != v {
@@ -821,6 +821,44 @@ func waitsDirectly(fc *FnCtx, nodes ...ast.Node) bool {
 			if c, ok := x.(*ast.CallExpr); ok {
 				if callee := typeutil.StaticCallee(fc.info(), c); callee != nil && callee.FullName() == "(*sync.Cond).Wait" {
 					found = true
+				}
+			}
+			return !found
+		})
+	}
+	return found
+}
+
+// calleeResetsCS: the nodes contain a call of a function whose contract speaks about cs() - applying such a contract
+// installs the callee's critical-section snapshot as the caller's (calls.go), so inside a loop the snapshot at the head
+// is not the one from before the loop either.
+func (fc *FnCtx) calleeResetsCS(nodes ...ast.Node) bool {
+	found := false
+	for _, n := range nodes {
+		if n == nil {
+			continue
+		}
+		ast.Inspect(n, func(x ast.Node) bool {
+			c, ok := x.(*ast.CallExpr)
+			if !ok || found {
+				return !found
+			}
+			callee := typeutil.StaticCallee(fc.info(), c)
+			if callee == nil {
+				return true
+			}
+			ct, home, _, _ := fc.eng.lookupContract(callee)
+			if ct == nil || home == nil {
+				return true
+			}
+			for _, e := range ct.Ensures {
+				if mentionsCall(e.E, "cs") {
+					found = true
+				}
+				for name, pf := range home.Pures {
+					if strings.Contains(pf.Text, "cs(") && mentionsCall(e.E, name) {
+						found = true
+					}
 				}
 			}
 			return !found
